@@ -201,6 +201,7 @@ def run(ctx):
         elif name == "set_all_edge_weights":
             wl = b.param_local("weight")
             okw = False
+            anchors_w = set()
             n_w = 0
             for cb in [b] + list(prog.closures_of(b.path)):
                 cf = flows.of(cb)
@@ -219,6 +220,23 @@ def run(ctx):
                         conds = [te for (te, v, a) in controlling_atoms(cf, s.bb) if not (isinstance(te, tuple) and te[0] == "discr" and "next(" in fmt_desc(te))]
                         good = ups == {"weight"} and not other and not conds
                         okw = good if n_w == 1 else (okw and good)
+                        # ... and the constructor is reached only through that per-edge step: the call that maps the
+                        # assigning closure over the edges (or the loop holding the assignment) is on every path to it
+                        if cb.kind == "closure":
+                            cname_ = cb.path.split("::")[-1]
+                            for t_ in b.calls():
+                                if any(a_.place is not None and ("{closure" in (a_.place.ty or "")) and (cname_ in (a_.place.ty or "") or len(prog.closures_of(b.path)) == 1 or True) for a_ in t_.args) and t_.callee and t_.callee.short.split("::")[-1] in ("map", "for_each", "map_init") and _closure_arg_is(prog, b, t_, cb):
+                                    anchors_w.add(t_.bb)
+                        else:
+                            from props.c06 import root_loops
+
+                            inner_ = [(h_, lb_) for (h_, lb_) in root_loops(b) if s.bb in lb_]
+                            if inner_:
+                                anchors_w.add(min(inner_, key=lambda x_: len(x_[1]))[0])
+            if okw and anchors_w:
+                byp_ = c.bb in (b.reachable_from(0, avoid=tuple(anchors_w)) | {0})
+                ctx.require(not byp_, "R-C15-4", "edges-always|set_all_edge_weights", "the constructor call of set_all_edge_weights is reached only through the per-edge weight assignment",
+                            "set_all_edge_weights can reach its constructor call without mapping the weight assignment over the edges (a short cut around it): on that path the edges keep their stored weights, so not every weight of the result is `weight`", loc_str(c.span))
             ctx.require(okw and "edges" in efs, "R-C15-4", "edges|set_all_edge_weights", "every edge's weight is assigned exactly the `weight` parameter, unconditionally",
                         ("set_all_edge_weights no longer builds its edges by cloning the stored edge and assigning `.weight` (no such assignment found): whatever else the stored edge carries -- its attributes -- is not carried over, so the result is not the source graph with new weights" if n_w == 0 else "the new weight is not simply the parameter"), loc_str(c.span))
         elif name == "to_single_edges":
@@ -318,3 +336,20 @@ def run_once(ctx):
     import witness
 
     witness.run_witnesses(ctx, "R-C15-1w", ["C15"])
+
+
+def _closure_arg_is(prog, b, t, cb):
+    """does call `t` of body `b` receive the closure whose body is `cb`?  (an argument is a local to which the
+    closure aggregate of `cb` is assigned, directly or through copies)"""
+    locs = set()
+    for s_ in b.stmts():
+        if s_.k == "assign" and s_.rv.k == "aggr" and s_.rv.j.get("ak") == "closure" and (s_.rv.j.get("closure") == cb.path or cb.path.endswith(str(s_.rv.j.get("closure"))) or str(s_.rv.j.get("closure")).endswith(cb.path.split("::", 1)[-1])):
+            locs.add(s_.lhs.local)
+    changed = True
+    while changed:
+        changed = False
+        for s_ in b.stmts():
+            if s_.k == "assign" and s_.rv.k == "use" and s_.rv.ops and s_.rv.ops[0].place is not None and s_.rv.ops[0].place.local in locs and not s_.lhs.proj and s_.lhs.local not in locs:
+                locs.add(s_.lhs.local)
+                changed = True
+    return any(a.place is not None and a.place.local in locs for a in t.args)
